@@ -41,6 +41,27 @@ Section Statements.
     destruct (pipeline_deterministic s0 input cap0 gs p' Hs Hd) as [H1 [H2 _]]. auto.
   Qed.
 
+  (* hence: the capacities do not matter.  Two complete drop-free runs of the same stages on the same input with
+     ANY two capacity vectors (e.g. 0/1/2/7 against "unbounded" = at least the number of messages) and any two
+     schedules deliver the same sequence and end in the same stage states (same final lifecycle table) *)
+  Theorem C13_capacity_independent s0 input (gs : list stage) (capsA capsB : list nat) capA0 capB0 (pA pB : pipe) :
+    length capsA = length gs -> length capsB = length gs ->
+    psteps false (init_pipe s0 input capA0 (combine gs capsA)) pA -> all_done pA = true ->
+    psteps false (init_pipe s0 input capB0 (combine gs capsB)) pB -> all_done pB = true ->
+    delivered pA = delivered pB /\ final_states pA = final_states pB.
+  Proof.
+    intros LA LB HA DA HB DB.
+    destruct (pipeline_deterministic _ _ _ _ _ HA DA) as [A1 [A2 _]].
+    destruct (pipeline_deterministic _ _ _ _ _ HB DB) as [B1 [B2 _]].
+    assert (EA : map fst (combine gs capsA) = gs).
+    { clear -LA. revert capsA LA. induction gs as [|g r IH]; intros [|c cs] L; cbn in *; try discriminate; auto.
+      f_equal. apply IH. congruence. }
+    assert (EB : map fst (combine gs capsB) = gs).
+    { clear -LB. revert capsB LB. induction gs as [|g r IH]; intros [|c cs] L; cbn in *; try discriminate; auto.
+      f_equal. apply IH. congruence. }
+    rewrite EA in *. rewrite EB in *. split; congruence.
+  Qed.
+
   (* at every moment of every execution, also with the consumer disappearing at an arbitrary step: what the
      consumer has got is a prefix of the sequential result (nothing lost, duplicated or reordered before it) *)
   Theorem C13_delivered_prefix_always s0 input cap0 (gs : list (stage * nat)) (p' : pipe) :
@@ -69,6 +90,24 @@ Section Statements.
     split; [exact (pipeline_terminates p)|].
     intros p' _ Hmax. apply stuck_is_done. intros p'' H. exact (Hmax p'' (pstep_false_true _ _ H)).
   Qed.
+
+  (* the channels are bounded: in every reachable configuration no FIFO holds more than its capacity
+     (a rendezvous channel never holds anything) *)
+  Theorem C13_channels_bounded dr s0 input cap0 (gs : list (stage * nat)) (p' : pipe) :
+    psteps dr (init_pipe s0 input cap0 gs) p' -> within_cap p'.
+  Proof. exact (channels_bounded dr s0 input cap0 gs p'). Qed.
+
+  (* the send actions of the model are exactly the outcomes of sync_sender_send_delay_if_full: Err iff try_send
+     reports Disconnected, enqueue / rendezvous hand-over iff it reports Ok, the 10 ms sleep (once) iff Full *)
+  Theorem C13_helper_faithful (c : @cell msg St) (rest : pipe) m pd :
+    pend_of (ns c) = m :: pd -> length (q c) <= cap c ->
+    let r := try_send (alive rest) (cap c) (length (q c)) (waiting rest) in
+    (r = TryDisconnected <-> head_step false AErr (PCell c rest) <> None) /\
+    (r = TryOk <-> (head_step false AEnq (PCell c rest) <> None \/
+                    (q c = [] /\ cap c = 0 /\ head_step false AXfer (PCell c rest) <> None))) /\
+    (r = TryFull -> slept_of (ns c) = false -> head_step false ASleep (PCell c rest) <> None) /\
+    (head_step false ASleep (PCell c rest) <> None -> alive rest = true /\ slept_of (ns c) = false /\ cap c <= length (q c)).
+  Proof. exact (helper_faithful c rest m pd). Qed.
 
   (* the schedule-driven interpreter used by the correspondence check computes executions of the relation *)
   Theorem C13_exec_sound fuel dropat sched more (p p' : pipe) b :
@@ -119,7 +158,10 @@ Qed.
 
 Print Assumptions C13_pipeline_deterministic.
 Print Assumptions C13_pipeline_deterministic_maximal.
+Print Assumptions C13_capacity_independent.
 Print Assumptions C13_delivered_prefix_always.
+Print Assumptions C13_channels_bounded.
+Print Assumptions C13_helper_faithful.
 Print Assumptions C13_pipeline_terminates.
 Print Assumptions C13_drop_consumer_terminates.
 Print Assumptions C13_exec_sound.
